@@ -488,7 +488,13 @@ theorem all_ops_complete (c0 : FakeClock) (progs : Nat → List Op) (sched : Lis
     simpa [nCommits] using this
 
 /-- The results are those of the sequential clock run on the operations in the order of their commits
-    (mutual exclusion makes every operation atomic). -/
+    (mutual exclusion makes every operation atomic).
+    ASSUMPTION AND ITS TIE: `compile` runs every operation as `acquire ; load ; commit op ; release`, i.e. the whole
+    read-modify-write of an operation inside ONE critical section of the clock's lock.  That this is what the Python source
+    does is `Pyoda.GenAgree.C19.all_ops_atomic_in_source` (`PyodaProofs/GenAgreeC19.lean`; one theorem `gen_<op>_atomic` per
+    public operation, checked on every run against the lock discipline record `<op>.lockInfo` that `tools/py2lean.py`
+    recomputes from the AST: every access to `__now` / `__auto_advance` inside `with self.__lock:`, one section, no
+    same-class call while holding the lock).  The same tie covers `all_ops_complete` and `concurrent_reads_distinct`. -/
 theorem linearizable (c0 : FakeClock) (progs : Nat → List Op) (sched : List Nat) (s : Sys)
     (h : (Sys.init compile c0 progs).runSched sched = some s) :
     run c0 (s.log.map (fun e => e.2.1)) = (s.clock, s.log.map (fun e => e.2.2)) :=
